@@ -120,10 +120,36 @@ func main() {
 	if *only == "" || *only == "A" {
 		aInfo = runA(r, col, &samples, *onlyCfg)
 	}
+	// application-defined request methods (harness A): a violation that the same configuration shows with POST
+	// on a default app too is that violation; the qualifier stays only on what needs another method
+	{
+		var sigs []string
+		for sg := range col.m {
+			if strings.Contains(sg, " unsafe-method=") {
+				sigs = append(sigs, sg)
+			}
+		}
+		sort.Strings(sigs)
+		for _, sg := range sigs {
+			i := strings.Index(sg, " unsafe-method=")
+			j := strings.Index(sg[i+1:], " ")
+			stem := sg[:i]
+			if j != -1 {
+				stem += sg[i+1+j:]
+			}
+			if t, ok := col.m[stem]; ok {
+				t.count += col.m[sg].count
+				delete(col.m, sg)
+			}
+		}
+	}
 	col.flush(r)
 	// anti-vacuity: the interesting mechanisms must have been exercised
 	if bInfo != nil && (r.P.Counters["B.judged_reached"] == 0 || r.P.Counters["B.judged_rejected"] == 0) {
 		core.Fatal("vacuous harness B: judged_reached=%d judged_rejected=%d", r.P.Counters["B.judged_reached"], r.P.Counters["B.judged_rejected"])
+	}
+	if bInfo != nil && r.P.Counters["B.appmethods.own_verb_with_live_token_reached"] == 0 {
+		core.Fatal("vacuous harness B: no request with an application-defined method and a live token ever reached the handler")
 	}
 	if aInfo != nil && *onlyCfg == "" && len(r.P.Caps) == 0 {
 		if r.P.Counters["A.agree_pass"] == 0 {
